@@ -18,7 +18,7 @@ def run(ctx):
     only = [x for x in os.environ.get("VERIF_C06_STAGES", "").split(",") if x]   # debugging aid: subset of page,sweep,idxa,idxk
 
     def stages(ctx, mult, suffix, off):
-        hdr = HDR.format(imports="model.C06_model model.C06_run")
+        hdr = HDR.format(imports="model.C06_model model.C06_unix model.C06_run")
 
         def stage(name, *a, **kw):
             if only and not any(name.startswith("c06" + o) for o in only):
@@ -36,6 +36,9 @@ def run(ctx):
         def handler():
             stage("c06handler", "services/keepstore", "main", ["C06/zz_verif_c06_handler_test.go"], "TestVerifC06Handler$",
                   (60 if q else 1500) * mult, hdr, shard=100)
+
+            stage("c06unix", "services/keepstore", "main", ["C06/zz_verif_c06_unixidx_test.go"], "TestVerifC06UnixIndex$",
+                  (80 if q else 2000) * mult, hdr, shard=40 if q else 250)
 
         def idxa():
             stage("c06idxa", "sdk/go/arvados", "arvados", ["C06/zz_verif_c06_idxa_test.go"], "TestVerifC06IndexA$",
